@@ -245,6 +245,9 @@ def gaussM (maxOrder : Nat → Option Nat) (rule : Nat → Nat → Except Err Ru
     | some k => rule dim k
     | none => .error .notImpl
 
+/-- what the API shows of a call: the error class, or the numbers of points and weights returned -/
+def apiShape (r : Except Err Rule) : Except Err (Nat × Nat) := r.map fun r => (r.pts.length, r.wts.length)
+
 /-! ### the consumer: which reference-cell rule `transport_density` integrates with -/
 
 /-- `L1Mode` of `darsia.measure.wasserstein` -/
